@@ -65,7 +65,7 @@ func init() {
 				Args: func(tier string, l *Loaded) [][]int64 { return [][]int64{{0, 2, 0, 1}} }},
 		}}
 	properties["C02"] = &PropertySpec{ID: "C02",
-		Rule:        "capture-bearing shapes (captures under alternation, optional/repeated groups, subroutine calls, followed by constructs that can fail; back-references) x all ASCII texts of length 0..T (quick 3, thorough 5); literal bytes symbolic in the second group; 9 shapes with captures around recursive calls / sibling captures with inner choice points at T = 4 (thorough 5)",
+		Rule:        "capture-bearing shapes (captures under alternation, optional/repeated groups, subroutine calls, followed by constructs that can fail; back-references) x all ASCII texts of length 0..T (quick 3, thorough 5); literal bytes symbolic in the second group; 9 shapes with captures around recursive calls / sibling captures with inner choice points at T = 4 (thorough 5); generated family: 6 choice-point prefixes (overlapping lists, alternation, greedy/lazy loops, optional) x 6 captured bodies x 4 contexts in which the capture's path is abandoned (alternation, optional group, repeated group, sibling capture) + back-reference after an abandoned binding = 149 programs at T = 3 (thorough 4)",
 		Assumptions: []string{"ASCII text", "distinct loop ids", "unbound or empty back-references are assumed away (statement silent / C09)"},
 		Groups: []JobGroup{
 			{Name: "c02", Overlay: libOverlay("C02/c02.go"), Pkg: "libvore", Entry: "VerifC02", PanicOK: true,
@@ -80,11 +80,15 @@ func init() {
 				Args: func(tier string, l *Loaded) [][]int64 {
 					return seqArgs(countOf(l, "libvore", "VerifC02DeepCount"), tOf(tier, 4, 5))
 				}},
+			{Name: "c02-generated", Overlay: libOverlay("C02/c02.go"), Pkg: "libvore", Entry: "VerifC02Gen", PanicOK: true,
+				Args: func(tier string, l *Loaded) [][]int64 {
+					return seqArgs(countOf(l, "libvore", "VerifC02GenCount"), tOf(tier, 3, 4))
+				}},
 			{Name: "c02-twin", Overlay: libOverlay("C02/c02.go"), Pkg: "libvore", Entry: "VerifC02", Twin: true, PanicOK: true,
 				Args: func(tier string, l *Loaded) [][]int64 { return [][]int64{{0, 2, 0, 1}} }},
 		}}
 	properties["C03"] = &PropertySpec{ID: "C03",
-		Rule:        "shapes incl. whole line/file/word, regex literals, named loops, replace, multi-command (harness/C03/c03.go) x texts of length 0..T: ASCII with column claim (quick 3, thorough 5) and all 256 byte values without column claim (quick 3, thorough 4); 10 skip/take/last shapes with multi-byte matches at T = 4 (thorough 5)",
+		Rule:        "shapes incl. whole line/file/word, regex literals, named loops, replace, multi-command (harness/C03/c03.go) x texts of length 0..T: ASCII with column claim (quick 3, thorough 5) and all 256 byte values without column claim (quick 3, thorough 4); 10 skip/take/last shapes with multi-byte matches at T = 4 (thorough 5); the 149 generated capture programs of C02 (captures whose path can be abandoned) with C03's assertions (variables are substrings of the value) at T = 3 (thorough 4)",
 		Assumptions: []string{"column claim for ASCII inputs only (as the property states)"},
 		Groups: []JobGroup{
 			{Name: "c03-ascii", Overlay: libOverlay("C03/c03.go"), Pkg: "libvore", Entry: "VerifC03", PanicOK: true,
@@ -99,11 +103,15 @@ func init() {
 				Args: func(tier string, l *Loaded) [][]int64 {
 					return seqArgs(countOf(l, "libvore", "VerifC03SkipCount"), tOf(tier, 4, 5))
 				}},
+			{Name: "c03-captures", Overlay: libOverlay("C02/c02.go", "C03/c03.go", "C03/c03_captures.go"), Pkg: "libvore", Entry: "VerifC03Captures", PanicOK: true,
+				Args: func(tier string, l *Loaded) [][]int64 {
+					return seqArgs(countOf(l, "libvore", "VerifC03CapturesCount"), tOf(tier, 3, 4))
+				}},
 			{Name: "c03-twin", Overlay: libOverlay("C03/c03.go"), Pkg: "libvore", Entry: "VerifC03", Twin: true, PanicOK: true,
 				Args: func(tier string, l *Loaded) [][]int64 { return [][]int64{{2, 2, 1, 1}} }},
 		}}
 	properties["C04"] = &PropertySpec{ID: "C04",
-		Rule:        "bodies whose occurrences can overlap or abut (harness/C04/c04.go) x ASCII texts of length 0..T (find quick 3 / thorough 5; replace 3 / 4; 'aa' and 'ab' with symbolic literal bytes at T=4 / 5) x symbolic s,t,n in [0,4]; find and replace; amount clause -> tuple mapping checked on the real lexer+parser with symbolic one- and two-digit numbers",
+		Rule:        "bodies whose occurrences can overlap or abut (harness/C04/c04.go) x ASCII texts of length 0..T (find quick 3 / thorough 5; replace 3 / 4; 'aa' and 'ab' with symbolic literal bytes at T=4 / 5) x symbolic s,t,n in [0,4]; find and replace; amount clause -> tuple mapping checked on the real lexer+parser with symbolic one- and two-digit numbers; large windows: texts of k unit copies, k symbolic in [64,72] (thorough [0,140]), n,s symbolic in [0,36] (thorough 70) for top/skip/last (find and replace), skip s take t with k in [30,36], s,t<=12 (thorough k<=70, s,t<=23) — counts cross the internal capacities of the window queue",
 		Assumptions: []string{"ASCII text", "s,t,n <= 4 (straddles len(A) <= T)"},
 		Groups: []JobGroup{
 			{Name: "c04-find", Overlay: libOverlay("C04/c04.go"), Pkg: "libvore", Entry: "VerifC04", PanicOK: true,
@@ -120,6 +128,13 @@ func init() {
 				}},
 			{Name: "c04-amount", Overlay: libOverlay("C04/c04.go"), Pkg: "libvore", Entry: "VerifC04Amount",
 				Args: func(tier string, l *Loaded) [][]int64 { return seqArgs(8) }},
+			{Name: "c04-long", Overlay: libOverlay("C04/c04.go"), Pkg: "libvore", Entry: "VerifC04Long", PanicOK: true, MaxFailures: 3,
+				Args: func(tier string, l *Loaded) [][]int64 {
+					if tier == "thorough" {
+						return [][]int64{{0, 0, 140, 70, 0, 0}, {1, 0, 140, 70, 0, 0}, {2, 0, 70, 23, 0, 0}, {3, 0, 140, 70, 0, 0}, {3, 0, 140, 70, 1, 1}, {0, 0, 70, 35, 1, 0}}
+					}
+					return [][]int64{{0, 64, 72, 36, 0, 0}, {1, 64, 72, 36, 0, 0}, {2, 30, 36, 12, 0, 0}, {3, 64, 72, 36, 0, 0}, {3, 64, 72, 36, 1, 1}, {0, 30, 36, 18, 1, 0}}
+				}},
 			{Name: "c04-twin", Overlay: libOverlay("C04/c04.go"), Pkg: "libvore", Entry: "VerifC04", Twin: true, PanicOK: true,
 				Args: func(tier string, l *Loaded) [][]int64 { return [][]int64{{0, 2, 0, 0, 1}} }},
 		}}
@@ -134,9 +149,9 @@ func init() {
 			{Name: "c05-twin", Overlay: libOverlay("C05/c05.go"), Pkg: "libvore", Entry: "VerifC05", Twin: true, PanicOK: true,
 				Args: func(tier string, l *Loaded) [][]int64 { return [][]int64{{0, 2, 1}} }},
 		}}
-	allLib := libOverlay("C01/c01.go", "C02/c02.go", "C03/c03.go", "C09/c09.go")
+	allLib := libOverlay("C01/c01.go", "C02/c02.go", "C03/c03.go", "C09/c09.go", "C09/c09_files.go")
 	properties["C09"] = &PropertySpec{ID: "C09",
-		Rule:        "boundary programs (empty bodies/literals/captures, whole-*, multi-byte ranges, named loops, predicates and transforms incl. division, mixed-type variables) plus every C01/C02/C03 shape x texts of length 0..T (ASCII quick 3 / thorough 4; all bytes quick 2 / thorough 3) through Run; RunFiles over the model file system is exercised by the C06/C07 harnesses whose panics are reported here",
+		Rule:        "boundary programs (empty bodies/literals/captures, whole-*, multi-byte ranges, named loops, predicates and transforms incl. division, mixed-type variables) plus every C01/C02/C03 shape x texts of length 0..T (ASCII quick 3 / thorough 4; all bytes quick 2 / thorough 3) through Run; RunFiles over the model file system: 12 programs (single and several find/replace commands over the same file, definitions shared by commands) x contents of length 0..T (quick 2, thorough 3, incl. the empty file) x symbolic mode {NOTHING, NEW, OVERWRITE} x file named once or twice",
 		Assumptions: []string{"process code terminates", "subroutines consume before recursing"},
 		Groups: []JobGroup{
 			{Name: "c09-ascii", Overlay: allLib, Pkg: "libvore", Entry: "VerifC09",
@@ -146,6 +161,10 @@ func init() {
 			{Name: "c09-bytes", Overlay: allLib, Pkg: "libvore", Entry: "VerifC09",
 				Args: func(tier string, l *Loaded) [][]int64 {
 					return seqArgs(countOf(l, "libvore", "VerifC09Count"), tOf(tier, 2, 3), 0)
+				}},
+			{Name: "c09-files", Overlay: allLib, Pkg: "libvore", Entry: "VerifC09Files",
+				Args: func(tier string, l *Loaded) [][]int64 {
+					return seqArgs(countOf(l, "libvore", "VerifC09FilesCount"), tOf(tier, 2, 3))
 				}},
 		}}
 	properties["C10"] = &PropertySpec{ID: "C10",
@@ -337,18 +356,20 @@ func init() {
 		}}
 	filesOv := func(files ...string) map[string][]string { return map[string][]string{"files": files} }
 	properties["C06"] = &PropertySpec{ID: "C06",
-		Rule:        "real RunFiles([f], mode, false) over the model file system: 14 programs (replacements longer/shorter/empty, adjacent and zero matches, captures, transforms, top/skip, find commands) x file contents of length 1..T (quick 3, thorough 5, ASCII) x symbolic mode in {NOTHING, NEW, OVERWRITE} x stale f.vored present/absent; expected text = splice of the matches the same run reported",
+		Rule:        "real RunFiles([f], mode, false) over the model file system: 14 programs (replacements longer/shorter/empty, adjacent and zero matches, captures, transforms, top/skip, find commands) x file contents of length 1..T (quick 3, thorough 5, ASCII) x symbolic mode in {NOTHING, NEW, OVERWRITE} x stale f.vored present/absent; expected text = splice of the matches the same run reported; large files a^g1 b a^g2 [b a^2049] with g1, g2 symbolic among {0,1,2047,2048,2049,4095,4096,4097} (half / whole read buffer), replacement '' or 'cc', modes NEW and OVERWRITE: exact splice",
 		Assumptions: []string{"POSIX/io contract of the modelled os calls (Read/ReadAt/Write/Seek/Truncate/O_TRUNC/O_CREATE) — the kernel is only exercised by native replay of counterexamples", "CONFIRM mode and processFilenames=true are outside the property", "files larger than T (window arithmetic for large files is C07's lemma)"},
 		Groups: []JobGroup{
 			{Name: "c06", Overlay: libOverlay("C06/c06.go"), Pkg: "libvore", Entry: "VerifC06", PanicOK: true,
 				Args: func(tier string, l *Loaded) [][]int64 {
 					return seqArgs(countOf(l, "libvore", "VerifC06Count"), tOf(tier, 3, 5), 0)
 				}},
+			{Name: "c06-large", Overlay: libOverlay("C06/c06.go"), Pkg: "libvore", Entry: "VerifC06Large", PanicOK: true, MaxFailures: 3,
+				Args: func(tier string, l *Loaded) [][]int64 { return [][]int64{{0, 0}, {0, 1}, {1, 0}, {1, 1}} }},
 			{Name: "c06-twin", Overlay: libOverlay("C06/c06.go"), Pkg: "libvore", Entry: "VerifC06", Twin: true, PanicOK: true,
 				Args: func(tier string, l *Loaded) [][]int64 { return [][]int64{{0, 1, 1}} }},
 		}}
 	properties["C07"] = &PropertySpec{ID: "C07",
-		Rule:        "(1) inductive step on the real BufferedFile.Seek/Read from an arbitrary window state satisfying the representation invariant, abstract file of symbolic size F in [1,2^40) whose byte at offset i is byte(i): Seek(off,SeekStart) for every off in [0,F], Seek(0,SeekCurrent), Read(p) with len(p) in 1..3 (thorough 4) inside the file; invariant, window-contains-offset, buffer content (Skolem position) and returned bytes asserted; (1b) the same step with window-relative quantities restricted to boundary classes (offset in window {0,1,2047,2048,4094,4095,4096} x bytes after the window {0,1,3,2047,2048,2049,5000}, short files {1,2,100,4095}; absolute window position symbolic; read lengths 1..6, thorough 8) on an ordinary 4096-cell buffer, which also executes implementations that use copy()/sub-slices; (2) NewBufferedFile establishes the invariant for every F in [0,2^40); files.Reader Seek+Read / ReadAt over BufferedFile return file[off:off+n] or \"\" (n <= 3), plus a backward read; (3) whole pipeline RunFiles vs Run on the same bytes for 19 programs x contents of length 0..T (quick 3, thorough 5; ASCII and all bytes)",
+		Rule:        "(1) inductive step on the real BufferedFile.Seek/Read from an arbitrary window state satisfying the representation invariant, abstract file of symbolic size F in [1,2^40) whose byte at offset i is byte(i): Seek(off,SeekStart) for every off in [0,F], Seek(0,SeekCurrent), Read(p) with len(p) in 1..3 (thorough 4) inside the file; invariant, window-contains-offset, buffer content (Skolem position) and returned bytes asserted; (1b) the same step with window-relative quantities restricted to boundary classes (offset in window {0,1,2047,2048,4094,4095,4096} x bytes after the window {0,1,3,2047,2048,2049,5000}, short files {1,2,100,4095}; absolute window position symbolic; read lengths 1..6, thorough 8) on an ordinary 4096-cell buffer, which also executes implementations that use copy()/sub-slices; (2) NewBufferedFile establishes the invariant for every F in [0,2^40); files.Reader Seek+Read / ReadAt over BufferedFile return file[off:off+n] or \"\" (n <= 3), plus a backward read; (3) whole pipeline RunFiles vs Run on the same bytes for 24 programs (5 with several find/replace commands over the same file) x contents of length 0..T (quick 3, thorough 5; ASCII and all bytes) x file named once or twice x mode NOTHING or NEW; (4) one engine read of n bytes (literal of n letters / back-reference to a capture of n letters) for every n in 1..300 (thorough 1100) and n in {511..513, 1023..1025, 2047..2049, 4095..4097, 5000, 8193} (captures: n in 1..64 (thorough 130) and {127..129, 255..257, 511..513}), with 0..2 bytes in front: RunFiles vs Run",
 		Assumptions: []string{"the kernel implements pread/read as documented (stub contract)", "file content function byte(i): a wrong offset that differs by a multiple of 256 is not visible in the data (it is visible in the offset assertions)", "reads longer than 4 bytes in one call are covered through the per-iteration argument"},
 		Groups: []JobGroup{
 			{Name: "c07-step-classes", Overlay: filesOv("C07/c07_step.go"), Pkg: "files", Entry: "VerifC07StepClasses", Lemma: true,
@@ -373,11 +394,15 @@ func init() {
 					out := seqArgs(countOf(l, "libvore", "VerifC07RunCount"), tOf(tier, 3, 5), 1, 0)
 					return append(out, seqArgs(countOf(l, "libvore", "VerifC07RunCount"), tOf(tier, 2, 3), 0, 0)...)
 				}},
+			{Name: "c07-long", Overlay: libOverlay("C06/c06.go"), Pkg: "libvore", Entry: "VerifC07Long", MaxFailures: 3, Budget: 300_000_000,
+				Args: func(tier string, l *Loaded) [][]int64 {
+					return [][]int64{{0, tOf(tier, 300, 1100)}, {1, tOf(tier, 64, 130)}}
+				}},
 			{Name: "c07-twin", Overlay: filesOv("C07/c07_step.go"), Pkg: "files", Entry: "VerifC07Step", Twin: true,
 				Args: func(tier string, l *Loaded) [][]int64 { return [][]int64{{0, 1, 1}} }},
 		}}
 	properties["C20"] = &PropertySpec{ID: "C20",
-		Rule:        "(1) real pathMatches vs the recursive definition of '*': patterns of length 0..4 (thorough 5) and names of length 0..5 (thorough 6) over all printable ASCII except '/', every byte symbolic; (2) real ParsePath(p).GetFileList(\".\") over the model file system: trees of depth <= 2 with up to 2 entries per directory, symbolic 1-byte names over {a,b}, symbolic is-directory bits, patterns of 1..2 segments of 1..2 bytes over {a,b,*}; result compared as a set, no duplicates, no directories",
+		Rule:        "(1) real pathMatches vs the recursive definition of '*': patterns of length 0..4 (thorough 5) and names of length 0..5 (thorough 6) over all printable ASCII except '/', every byte symbolic; (2) real ParsePath(p).GetFileList(\".\") over the model file system: trees of depth <= 2 with up to 2 entries per directory, symbolic 1-byte names over {a,b}, symbolic is-directory bits, patterns of 1..2 segments of 1..2 bytes over {a,b,*}; result compared as a set, no duplicates, no directories; (3) trees of depth 3 with fixed names per level (aa, ab / a, b / a [thorough: a, b]) and symbolic kind of every entry (absent, file, directory with symbolic content), patterns of 1..3 segments chosen symbolically among literal and starred spellings that match one or both names of a level",
 		Assumptions: []string{"directory segments made only of stars and ./.. segments are excluded (as the property states)", "absolute patterns are not explored (the model tree is relative to the working directory)", "ReadDir failing is modelled as the code treats it (empty)"},
 		Groups: []JobGroup{
 			{Name: "c20-seg", Overlay: filesOv("C20/c20.go"), Pkg: "files", Entry: "VerifC20Seg",
@@ -392,11 +417,18 @@ func init() {
 				}},
 			{Name: "c20-tree", Overlay: filesOv("C20/c20.go", "C20/c20_tree.go"), Pkg: "files", Entry: "VerifC20Tree",
 				Args: func(tier string, l *Loaded) [][]int64 { return [][]int64{{1, 0}, {2, 0}} }},
+			{Name: "c20-deep", Overlay: filesOv("C20/c20.go", "C20/c20_tree.go", "C20/c20_deep.go"), Pkg: "files", Entry: "VerifC20Deep",
+				Args: func(tier string, l *Loaded) [][]int64 {
+					if tier == "thorough" {
+						return [][]int64{{3, 1}, {2, 1}, {1, 1}}
+					}
+					return [][]int64{{3, 0}, {2, 0}, {1, 0}}
+				}},
 			{Name: "c20-twin", Overlay: filesOv("C20/c20.go"), Pkg: "files", Entry: "VerifC20Seg", Twin: true,
 				Args: func(tier string, l *Loaded) [][]int64 { return [][]int64{{1, 1, 1}} }},
 		}}
 	properties["C14"] = &PropertySpec{ID: "C14",
-		Rule:        "96 regexes of the supported subset (every construct alone, every quantifier incl. lazy forms on literal/class/group atoms, plain/non-capturing/named groups nested to depth 2, alternation of atoms or groups alone and under quantifiers, ^ $ anchors, numbered and named back-references incl. nested groups) x ASCII texts of length 0..T (quick 4, thorough 6) without \\r \\f \\v; spans and group bindings compared with an independent backtracking regex engine written in the harness",
+		Rule:        "103 regexes of the supported subset (every construct alone, every quantifier incl. lazy forms on literal/class/group atoms, plain/non-capturing/named groups nested to depth 2, alternation of atoms or groups alone and under quantifiers, ^ $ anchors, numbered and named back-references incl. nested groups and adjacent variable-length groups whose division of the text is decided by a back-reference) x ASCII texts of length 0..T (quick 4, thorough 6) without \\r \\f \\v; spans and group bindings compared with an independent backtracking regex engine written in the harness",
 		Assumptions: []string{"texts contain no \\r, \\f, \\v (engines differ on \\s for \\v; the property excludes \\r and \\f)", "repeated bodies that match the empty string and references to unset/empty groups are assumed away", "alternatives are single atoms or groups spanning the enclosing group (ab|cd is outside the stated subset)", "\\w \\W \\b \\B, look-around, empty classes are outside the subset"},
 		Groups: []JobGroup{
 			{Name: "c14", Overlay: libOverlay("C14/c14.go"), Pkg: "libvore", Entry: "VerifC14", PanicOK: true,
@@ -408,7 +440,7 @@ func init() {
 		}}
 	c15Ov := astOv("C15/corpus.go", "C15/c15.go")
 	properties["C15"] = &PropertySpec{ID: "C15",
-		Rule:        "48 corpus programs covering every construct x every gap between two tokens (symbolic gap index) x {nothing, blank run, line comment, blank+block comment+blank, two comments} at token level through the real parser (accepted, identical syntax tree); at source level through the real lexer with blank runs from {space, tab+newline, CRLF} and line/block comments with symbolic bodies of 0..2 (thorough 3) arbitrary ASCII bytes (token sequence modulo WS/COMMENT unchanged); 52 keywords x all letter-case variants (symbolic case bit per letter)",
+		Rule:        "48 corpus programs covering every construct x every gap between two tokens (symbolic gap index) x {nothing, blank run, line comment, blank+block comment+blank, two comments} at token level through the real parser (accepted, identical syntax tree); at source level through the real lexer with blank runs from {space, tab+newline, CRLF} and line/block comments with symbolic bodies of 0..2 (thorough 3) arbitrary ASCII bytes (token sequence modulo WS/COMMENT unchanged); 52 keywords x all letter-case variants (symbolic case bit per letter); fillers longer than the lexer's read buffer: blank runs, line comments and block comments of every length in [4084,4111] (thorough also [8180,8207] and [2040,2055]) in every gap of 2 (thorough 6) corpus programs",
 		Assumptions: []string{"one altered gap per run (the parser passes only a token index between its functions)", "comments inside string and regex literals are not gaps"},
 		Groups: []JobGroup{
 			{Name: "c15-tokens", Overlay: c15Ov, Pkg: "ast", Entry: "VerifC15Tokens",
@@ -429,28 +461,56 @@ func init() {
 				}},
 			{Name: "c15-keywords", Overlay: c15Ov, Pkg: "ast", Entry: "VerifC15Keyword",
 				Args: func(tier string, l *Loaded) [][]int64 { return seqArgs(countOf(l, "ast", "VerifC15KeywordCount")) }},
+			{Name: "c15-long", Overlay: c15Ov, Pkg: "ast", Entry: "VerifC15Long", MaxFailures: 3,
+				Args: func(tier string, l *Loaded) [][]int64 {
+					var out [][]int64
+					progs := []int64{0, 1}
+					if tier == "thorough" {
+						progs = []int64{0, 1, 2, 3, 4, 5}
+					}
+					for _, p := range progs {
+						for kind := int64(0); kind < 3; kind++ {
+							out = append(out, []int64{p, kind, 4084, 28})
+							if tier == "thorough" {
+								out = append(out, []int64{p, kind, 8180, 28}, []int64{p, kind, 2040, 16})
+							}
+						}
+					}
+					return out
+				}},
 			{Name: "c15-twin", Overlay: c15Ov, Pkg: "ast", Entry: "VerifC15Tokens", Twin: true,
 				Args: func(tier string, l *Loaded) [][]int64 { return [][]int64{{0, 1}} }},
 		}}
 	properties["C17"] = &PropertySpec{ID: "C17",
-		Rule:        "11 programs (find/replace incl. empty replacements, flat captures, named loops nested to depth 2, zero matches, multi-command) x ASCII texts of length 0..T (quick 2, thorough 3) over ALL 128 values incl. quotes, backslashes and control characters: the real Json/FormattedJson/MarshalJSON code renders through the abstract encoding/json codec; both renderings are parsed by the harness' JSON parser, compared as documents and against the in-memory matches field by field (keys exactly as documented, replacement iff replace, nested variables)",
+		Rule:        "11 programs (find/replace incl. empty replacements, flat captures, named loops nested to depth 2, zero matches, multi-command) x ASCII texts of length 0..T (quick 2, thorough 3) over ALL 128 values incl. quotes, backslashes and control characters: the real Json/FormattedJson/MarshalJSON code renders through the abstract encoding/json codec; both renderings are parsed by the harness' JSON parser, compared as documents and against the in-memory matches field by field (keys exactly as documented, replacement iff replace, nested variables); texts glued from 2 (thorough 3) symbolically chosen fragments of JSON syntax and escape sequences (backslash, quote, u003c, u0026, u2028, control characters, brackets ...: 24 fragments) for 4 programs",
 		Assumptions: []string{"encoding/json is replaced by a type-directed codec stub honouring the json.Marshaler contract (calls the repository's MarshalJSON methods); byte-level escaping, invalid UTF-8 and non-ASCII handling of the real encoder are outside the claim (exercised only when a counterexample is replayed natively)", "ASCII texts"},
 		Groups: []JobGroup{
 			{Name: "c17", Overlay: libOverlay("common/jsonparse.go", "C17/c17.go"), Pkg: "libvore", Entry: "VerifC17",
 				Args: func(tier string, l *Loaded) [][]int64 {
 					return seqArgs(countOf(l, "libvore", "VerifC17Count"), tOf(tier, 2, 3), 0)
 				}},
+			{Name: "c17-fragments", Overlay: libOverlay("common/jsonparse.go", "C17/c17.go"), Pkg: "libvore", Entry: "VerifC17Fragments", MaxFailures: 3,
+				Args: func(tier string, l *Loaded) [][]int64 {
+					var out [][]int64
+					for _, p := range []int64{0, 2, 4, 7} {
+						out = append(out, []int64{p, 2})
+						if tier == "thorough" {
+							out = append(out, []int64{p, 3})
+						}
+					}
+					return out
+				}},
 			{Name: "c17-twin", Overlay: libOverlay("common/jsonparse.go", "C17/c17.go"), Pkg: "libvore", Entry: "VerifC17", Twin: true,
 				Args: func(tier string, l *Loaded) [][]int64 { return [][]int64{{0, 1, 1}} }},
 		}}
 	properties["C18"] = &PropertySpec{ID: "C18",
-		Rule:        "the real main() under the flag/exit/stdout/file-system model: programs {-com find, -com replace, -com that fails to compile, -src file, neither, both} x -files {one file, glob matching two, glob matching none, absent} x -replace-mode {absent, NEW, NOTHING, OVERWRITE, unknown} x symbolic booleans -json, -formatted-json, -no-output, -json-file given, -formatted-json-file given x file content of 1..2 symbolic printable bytes; exit status, stdout (exactly one JSON document equal to the library result), JSON files, per-mode file effects, invalid invocations change nothing",
+		Rule:        "the real main() under the flag/exit/stdout/file-system model: programs {-com find, -com replace, -com replace with an empty replacement, -com that fails to compile, -src file, neither, both} x -files {one file, glob matching two, glob matching none, absent} x -replace-mode {absent, NEW, NOTHING, OVERWRITE, unknown} x symbolic booleans -json, -formatted-json, -no-output, -json-file given, -formatted-json-file given x file content of 1..2 symbolic printable bytes; exit status, stdout (exactly one JSON document equal to the library result), JSON files, per-mode file effects, invalid invocations change nothing",
 		Assumptions: []string{"argv parsing by the flag package, process exit plumbing and stdout buffering are modelled (flag values are supplied, os.Exit/log.Fatal recorded, fmt.Print* captured); the built binary is executed only when a counterexample is replayed", "-debug, -filenames and -profile are not explored"},
 		Groups: []JobGroup{
 			{Name: "c18", Overlay: map[string][]string{"main": {"common/jsonparse.go", "C18/c18.go"}}, Pkg: "main", Entry: "VerifC18",
 				Args: func(tier string, l *Loaded) [][]int64 {
 					var out [][]int64
-					for p := int64(0); p < 6; p++ {
+					for p := int64(0); p < 7; p++ {
 						for f := int64(0); f < 4; f++ {
 							for md := int64(0); md < 5; md++ {
 								out = append(out, []int64{p, f, md, 0})
